@@ -34,6 +34,10 @@ type PropMeta struct {
 	ReplayPkg   string   `json:"replay_pkg"`  // package dir (relative to repo) the replay driver is injected into
 	ReplayTest  string   `json:"replay_test"` // test function name
 	Bounded     []string `json:"bounded"`
+	FrameAllow  []string          `json:"frame_allow"`  // C05: prefixes of modifies designators a request-path function may declare
+	FrameExempt map[string]string `json:"frame_exempt"` // function -> reason (functions that run user code)
+	BoundedPkg  string   `json:"bounded_pkg"`  // package dir (relative to repo) of the bounded stand-in test
+	BoundedTest string   `json:"bounded_test"` // test function name (file: bounded/<id>/bounded_test.go)
 }
 
 func hasProp(ps []string, id string) bool {
@@ -120,6 +124,7 @@ func runProperty(p *Prog, id, tier string, cfg SolverCfg, verifDir, outDir strin
 	var funcsUnder, inlined []string
 	inlinedSet := map[string]bool{}
 	notes := map[string]bool{}
+	frameAudited := 0
 	for _, k := range keys {
 		c := p.cs.Funcs[k]
 		fn := p.funcs[k]
@@ -130,6 +135,26 @@ func runProperty(p *Prog, id, tier string, cfg SolverCfg, verifDir, outDir strin
 		vc := VerifyFunction(p, fn, c)
 		vcs = append(vcs, vc)
 		funcsUnder = append(funcsUnder, vc.funcName())
+		// frame audit: what a request-path function may declare in its modifies clause
+		if len(meta.FrameAllow) > 0 && hasProp(c.Props, id) {
+			if _, exempt := meta.FrameExempt[vc.funcName()]; !exempt {
+				if c.ModAll {
+					viols = append(viols, violation{Obligation: vc.funcName() + "#frame-audit@modifies:*", Func: vc.funcName(), Class: "frame", Desc: "request-path function declares `modifies *`", Status: "audit"})
+				}
+				for _, d := range c.ModSrc {
+					ok := false
+					for _, a := range meta.FrameAllow {
+						if strings.HasPrefix(d, a) {
+							ok = true
+						}
+					}
+					if !ok {
+						viols = append(viols, violation{Obligation: vc.funcName() + "#frame-audit@modifies:" + d, Func: vc.funcName(), Class: "frame", Desc: "request-path function may modify shared state: modifies " + d, Status: "audit"})
+					}
+				}
+				frameAudited++
+			}
+		}
 		for _, e := range vc.specErrors {
 			viols = append(viols, violation{Obligation: vc.funcName() + "#contract", Func: vc.funcName(), Class: "detached", Desc: "contract no longer applies to the code: " + e, Status: "detached"})
 		}
@@ -256,6 +281,40 @@ func runProperty(p *Prog, id, tier string, cfg SolverCfg, verifDir, outDir strin
 		fmt.Printf("  obligation %s [%s] %s (%s)\n", v.Obligation, v.Status, v.Desc, v.Pos)
 		exit = 1
 	}
+	// bounded stand-in (labelled bounded, never counted as proof)
+	var boundedStats string
+	if meta.BoundedTest != "" {
+		stats, fails, out := runBounded(p.repo, verifDir, id, meta, seed, tier, "")
+		boundedStats = stats
+		if stats == "" {
+			broken = append(broken, "bounded stand-in did not run: "+truncate(out, 400))
+		}
+		for _, fl := range fails {
+			matched := false
+			for _, kf := range known {
+				if kf.Property == id && kf.Status != "fixed" && strings.Contains(fl, kf.Witness) && kf.Witness != "" {
+					matched = true
+					line := fmt.Sprintf("KNOWN-FINDING: property=%s %s", id, kf.What)
+					fmt.Println(line)
+					knownPrinted = append(knownPrinted, line)
+				}
+			}
+			if matched {
+				continue
+			}
+			nViol++
+			rp := filepath.Join(outDir, "replays", id, fmt.Sprintf("bounded_%d.json", nViol))
+			rec := map[string]interface{}{"property": id, "obligation": "bounded stand-in " + meta.BoundedTest, "function": meta.BoundedTest, "class": "bounded",
+				"what": "the bounded stand-in found a failing input", "replay": map[string]interface{}{"driver": meta.BoundedTest, "failing_input_found": true, "input": fl, "bounded": true}}
+			data, _ := json.MarshalIndent(rec, "", " ")
+			os.WriteFile(rp, data, 0o644)
+			fmt.Printf("VIOLATION property=%s replay=%s\n  bounded stand-in: %s\n", id, rp, truncate(fl, 300))
+			exit = 1
+			if nViol > 8 {
+				break
+			}
+		}
+	}
 	if nObl == 0 && len(viols) == 0 {
 		broken = append(broken, "no obligation generated for "+id)
 	}
@@ -297,6 +356,8 @@ func runProperty(p *Prog, id, tier string, cfg SolverCfg, verifDir, outDir strin
 		"samples":        samples,
 		"known_findings_printed": knownPrinted,
 		"bounded_parts": meta.Bounded,
+		"bounded_stats": boundedStats,
+		"frame_audited_functions": frameAudited,
 		"explanation":   meta.Explanation,
 		"vacuity":       fmt.Sprintf("%d cover checks (entry/exit reachability per function), %d provably unreachable", countCovers(jobs), len(broken)),
 	}
@@ -402,8 +463,9 @@ func replayFile(repo, verifDir, path string) int {
 		Property   string `json:"property"`
 		Obligation string `json:"obligation"`
 		Replay     struct {
-			Found bool   `json:"failing_input_found"`
-			Input string `json:"input"`
+			Found   bool   `json:"failing_input_found"`
+			Input   string `json:"input"`
+			Bounded bool   `json:"bounded"`
 		} `json:"replay"`
 	}
 	if err := json.Unmarshal(data, &rec); err != nil {
@@ -413,6 +475,15 @@ func replayFile(repo, verifDir, path string) int {
 	var meta PropMeta
 	if d, err := os.ReadFile(filepath.Join(verifDir, "props", rec.Property+".json")); err == nil {
 		json.Unmarshal(d, &meta)
+	}
+	if rec.Replay.Bounded {
+		_, fails, out := runBounded(repo, verifDir, rec.Property, meta, 0, "quick", rec.Replay.Input)
+		if len(fails) > 0 {
+			fmt.Printf("VIOLATION property=%s replay=%s\n  input %s still fails on the current code\n", rec.Property, path, fails[0])
+			return 1
+		}
+		fmt.Printf("replay %s: stored input no longer fails\n%s\n", path, truncate(out, 400))
+		return 0
 	}
 	if !rec.Replay.Found {
 		fmt.Printf("replay %s: no failing input was recorded for obligation %s (verifier output only)\n", path, rec.Obligation)
@@ -425,4 +496,42 @@ func replayFile(repo, verifDir, path string) int {
 	}
 	fmt.Printf("replay %s: stored input no longer fails\n%s\n", path, truncate(out, 600))
 	return 0
+}
+
+// runBounded runs the property's bounded stand-in test against the real code.
+func runBounded(repo, verifDir, id string, meta PropMeta, seed int, tier, input string) (stats string, fails []string, out string) {
+	src := filepath.Join(verifDir, "bounded", id, "bounded_test.go")
+	if _, err := os.Stat(src); err != nil {
+		return "", nil, "no bounded test file"
+	}
+	tmp, err := os.MkdirTemp("", "govc-bounded")
+	if err != nil {
+		return "", nil, err.Error()
+	}
+	defer os.RemoveAll(tmp)
+	pkgDir := filepath.Join(repo, meta.BoundedPkg)
+	ov := map[string]map[string]string{"Replace": {filepath.Join(pkgDir, "zz_verif_bounded_"+strings.ToLower(id)+"_test.go"): src}}
+	ovData, _ := json.Marshal(ov)
+	ovPath := filepath.Join(tmp, "ov.json")
+	os.WriteFile(ovPath, ovData, 0o644)
+	ctx, cancel := context.WithTimeout(context.Background(), 40*time.Minute)
+	defer cancel()
+	cmd := exec.CommandContext(ctx, "go", "test", "-overlay", ovPath, "-vet=off", "-count=1", "-timeout", "35m", "-v", "-run", "^"+meta.BoundedTest+"$", "./"+meta.BoundedPkg)
+	cmd.Dir = repo
+	cmd.Env = append(os.Environ(), "GOFLAGS=-mod=mod", "GOPROXY=off", "GOSUMDB=off", "GOTOOLCHAIN=local",
+		"VERIF_SEED="+strconv.Itoa(seed), "VERIF_TIER="+tier, "VERIF_REPLAY_INPUT="+input, "GOCACHE="+filepath.Join(os.TempDir(), "govc-gocache"))
+	var buf bytes.Buffer
+	cmd.Stdout = &buf
+	cmd.Stderr = &buf
+	cmd.Run()
+	out = buf.String()
+	for _, line := range strings.Split(out, "\n") {
+		if j := strings.Index(line, "REPLAY-FAIL "); j >= 0 {
+			fails = append(fails, strings.TrimSpace(line[j+len("REPLAY-FAIL "):]))
+		}
+		if j := strings.Index(line, "BOUNDED-STATS "); j >= 0 {
+			stats = strings.TrimSpace(line[j+len("BOUNDED-STATS "):])
+		}
+	}
+	return stats, fails, out
 }
